@@ -16,6 +16,18 @@ for (_l, _f, _tier) in ((3, 2, 'quick'), (4, 2, 'quick'), (5, 3, 'thorough'), (6
     GROUPS.append(dict(_RT, name='ext_arbitrary_%d' % _l, entry='h_ext_arbitrary', unwind=_l + 2, timeout=3600, tier='thorough', mem_gb=20,
         defines=['-DVERIF_RAW=%d' % _l, '-DVERIF_RAW_NF=%d' % _f], bounds='%d arbitrary bytes, %d frames' % (_l, _f),
         what='iterator / count / parse on arbitrary bytes: in-bounds results, existing frames, mutual agreement'))
+_SPLIT = dict(cls='B', tu='C16_out_range_split.c', entry='h_out_range_split', dfcc=False, canary='real', functions=['opus_repacketizer_out_range_impl'], cex={'self': True},
+    ignore=[(r'same object violation in ptr - frames', 'OPUS_MOVE type-check term 0*((dst)-(src)) on distinct buffers')],
+    trusted=['stubs of opus_packet_extensions_count/parse/generate carrying a symbolic (id, frame) list per source packet; repacketizer state as left by opus_repacketizer_cat (C07 cat_invariant)',
+             'the scratch extension list of out_range_impl is given a fixed capacity (requested size asserted to fit): CBMC cannot encode a variable-length array of structs at this size'],
+    what='which extensions out_range hands to the generator and with which frame index: the ones of the selected audio frames, renumbered')
+for (_b, _e) in ((0, 1), (0, 2), (0, 3), (1, 2), (1, 3), (2, 3)):
+    GROUPS.append(dict(_SPLIT, name='out_range_split_b%de%d' % (_b, _e), unwind=8, timeout=900, mem_gb=12, expect_canaries=1 if (_b, _e) == (0, 3) else 2,
+        defines=['-DVERIF_NF=3', '-DVERIF_FIXED_ALLOC', '-DVERIF_BEGIN=%d' % _b, '-DVERIF_END=%d' % _e],
+        bounds='3 frames held, any partition into source packets, <= 2 extensions per source packet on any of its frames, selection [%d,%d)' % (_b, _e)))
+GROUPS.append(dict(_SPLIT, name='out_range_split_nf4', unwind=10, timeout=3600, mem_gb=24, expect_canaries=2, tier='thorough', defines=['-DVERIF_NF=4', '-DVERIF_FIXED_ALLOC'],
+    bounds='4 frames held, any partition into source packets, <= 2 extensions per source packet, any (begin,end)'))
+
 META = {'enforced_elsewhere': ['skip_extension_payload'],
         'cex': {'tu': 'C16_roundtrip.c', 'entry': 'h_ext_arbitrary', 'unwind': 7, 'defines': ['-DVERIF_RAW=4', '-DVERIF_RAW_NF=2'], 'timeout': 1200}}
 for _c in (1, 2):
